@@ -637,6 +637,18 @@ func (p *Parser) parseBuiltin() ast.Node {
 	return bi
 }
 
+// A parameter can be any token (which prints and reads back as itself) but not an invalid character.
+func (p *Parser) parameter() *ast.Identifier {
+	if p.curToken.Type() == token.ILLEGAL {
+		errLine, lineNum := p.ErrorLine(true)
+		p.errors = append(p.errors, fmt.Sprintf("%d: invalid character `%s` in parameter list:\n%s",
+			lineNum, p.curToken.Literal(), errLine))
+	}
+	ident := &ast.Identifier{}
+	ident.Token = p.curToken
+	return ident
+}
+
 func (p *Parser) parseFunctionParameters() ([]ast.Node, bool) {
 	identifiers := []ast.Node{}
 	if p.peekTokenIs(token.RPAREN) {
@@ -644,15 +656,11 @@ func (p *Parser) parseFunctionParameters() ([]ast.Node, bool) {
 		return identifiers, false
 	}
 	p.nextToken()
-	ident := &ast.Identifier{}
-	ident.Token = p.curToken
-	identifiers = append(identifiers, ident)
+	identifiers = append(identifiers, p.parameter())
 	for p.peekTokenIs(token.COMMA) {
 		p.nextToken()
 		p.nextToken()
-		ident := &ast.Identifier{}
-		ident.Token = p.curToken
-		identifiers = append(identifiers, ident)
+		identifiers = append(identifiers, p.parameter())
 	}
 	if !p.expectPeek(token.RPAREN) {
 		return nil, false
